@@ -11,6 +11,10 @@ def pRepTbl : P (List ((Cl × Cl × Cl) × List (List Cl))) :=
 /-- request: g word excl | insert? delete? replace? swap frozen | result word, result excl -/
 def corruptD (op : String) (args : List Nat) : Option String :=
   match op with
+  -- the preprocessing step that builds its edit tables from a characters file and chains edit_word: every chain of
+  -- the model ends with a word and an exclusion set inside it (`C15.chain_excl_bound`); the request only asks that the
+  -- implementation terminates without a fault
+  | "spellprep" => some "terminates"
   | "editword" => some <| match runP (do
         let _g ← pBool; let word ← pText; let excl ← pNats
         let ins ← pOpt pInsTbl; let del ← pOpt pBool; let rep ← pOpt pRepTbl; let sw ← pBool; let frozen ← pNats
